@@ -48,6 +48,9 @@ def run(db, chk):
     chk.rule("C01-E3", "priority-flood: every reached unmasked node ends >= the successor of the "
              "node it was reached from; base levels and masked nodes are never written; no "
              "elevation is lowered", min_instances=50)
+    chk.rule("C01-E5", "MST re-routing (basic and carve): every node between the pit and the pass "
+             "inflow ends up draining through the pass outflow, for every aliasing of pit / pass "
+             "inflow and every order of the pass elevations", min_instances=18)
     chk.rule("C01-E4", "MST resolver: donors, bottom-up and breadth-first orders are rebuilt after "
              "re-routing and before the tilt reads them", min_instances=1)
     n_sc = 0
@@ -142,9 +145,105 @@ def run(db, chk):
                     None if sc[2] is None else "%s%s" % ("masked " if sc[2][0] else "", sc[2][1])),
                     not bad, where=pf.ploc, function=pf.bn, construct="pflood-step",
                     detail="; ".join(bad[:3]), sample=(n_sc % 97 == 1), extra={"unit": uname})
+        # ---------------------------------------------------------------- E5
+        n_sc += reroute_rule(db, chk, uname, impls)
         # ---------------------------------------------------------------- E4
         C06.order_rule(db, Effects(db), chk, uname, "C01-E4", only_op=MST)
     chk.count_scenarios(n_sc, True)
+
+
+def reroute_rule(db, chk, uname, impls):
+    """C01-E5: after re-routing an inner basin through its pass, every node of the old path pit ..
+    pass-inflow reaches the pass-outflow node (hence the outer basin), for every aliasing of
+    (pit, pass inflow) and every order of the two pass elevations"""
+    from ..interp import Interp, World, PyVec, NOT_HANDLED, ElemRef, ThrowEx
+    from .routers import Table
+    fns = {f.name: f for f in impls.get(MST, {}).get("fns", [])}
+    n = 0
+    BASE, B = 0, 1          # outer basin: base level 0, pass-outflow node 1 (drains to 0)
+    for method in ("update_routes_sinks_basic", "update_routes_sinks_carve"):
+        fn = fns.get(method)
+        if fn is None:
+            raise AnalysisBroken("C01-E5: %s not instantiated in %s" % (method, uname))
+        for chain_len in (0, 1, 2):          # number of nodes between pass inflow and the pit
+            for rel in ("<", "==", ">"):      # elevation(pass inflow) rel elevation(pass outflow)
+                n += 1
+                nodes = list(range(2, 3 + chain_len))     # pass inflow a = nodes[0] ... pit p = nodes[-1]
+                a, p = nodes[0], nodes[-1]
+                R, D = Table("m_receivers"), Table("m_receivers_distance")
+                R[(BASE, 0)] = BASE
+                R[(B, 0)] = BASE
+                D[(BASE, 0)] = 0.0
+                D[(B, 0)] = 1.0
+                for i, nd in enumerate(nodes):
+                    R[(nd, 0)] = nodes[i + 1] if i + 1 < len(nodes) else nd
+                    D[(nd, 0)] = 1.0 + i if i + 1 < len(nodes) else 0.0
+                ea = {"<": 1.0, "==": 2.0, ">": 3.0}[rel]
+                elev = sinks.Elev([0.0, 2.0] + [ea] + [ea - 0.5 * (k + 1) for k in range(chain_len)])
+                edge = Obj("fastscapelib::basin_graph::edge", {"link": PyVec([0, 1]), "pass": PyVec([B, a]),
+                                                              "pass_elevation": max(ea, 2.0), "pass_length": 1.5})
+
+                class RW(World):
+                    def before_call(self, it, f2, call, callee, frame):
+                        nm = callee.bn.split("::")[-1]
+                        if nm == "get_basin_graph":
+                            return Sym("basin_graph", "bg")
+                        if callee.bn.endswith("basin_graph::outlets"):
+                            return PyVec([BASE, p])
+                        if callee.bn.endswith("basin_graph::tree"):
+                            return PyVec([0])
+                        if callee.bn.endswith("basin_graph::edges"):
+                            return PyVec([edge])
+                        return NOT_HANDLED
+
+                    def member(self, it, f2, node, base, frame):
+                        if isinstance(base, Sym) and base.kind == "graph_impl":
+                            return {"m_receivers": R, "m_receivers_distance": D}.get(node["n"], NOT_HANDLED)
+                        return NOT_HANDLED
+
+                    def external(self, it, f2, call, frame):
+                        nm = call.get("bn", "").split("::")[-1]
+                        obj = call.get("obj")
+                        if obj is not None:
+                            o = it.rv(it.eval(obj, frame))
+                            if isinstance(o, Table) and nm in ("operator()", "flat", "operator[]"):
+                                return ElemRef(o, tuple(it.rv(it.eval(x, frame)) for x in call.get("a", [])))
+                            if isinstance(o, sinks.Elev) and nm in ("flat", "operator()", "operator[]"):
+                                return ElemRef(o, it.rv(it.eval(call["a"][0], frame)))
+                        return NOT_HANDLED
+                it = Interp(RW(), max_steps=20000)
+                this = Obj(fn.cls, {"m_basin_graph_ptr": Sym("basin_graph", "bg"), "m_op_ptr": Obj(MST, {})})
+                bad = []
+                try:
+                    args = [Sym("graph_impl", "g")] + ([elev] if len(fn.params) == 2 else [])
+                    it.call_fn(fn, this, args)
+                except ThrowEx as ex:
+                    bad.append("threw %s" % ex.text[:60])
+                except Exception as ex:
+                    if "StepLimit" in type(ex).__name__:
+                        bad.append("re-routing does not terminate")
+                    else:
+                        raise
+                if not bad:
+                    for start in nodes:
+                        cur, steps = start, 0
+                        while cur != B and steps < 8:
+                            nxt = R.get((cur, 0))
+                            if nxt == cur:
+                                break
+                            cur, steps = nxt, steps + 1
+                        if cur != B:
+                            bad.append("node %d of the depression does not reach the pass outflow "
+                                       "(path stops at node %r)" % (start, cur))
+                            break
+                    if R.get((B, 0)) != BASE:
+                        bad.append("receiver of the pass outflow node changed")
+                chk.ob("C01-E5", "[%s] %s: pit %s pass inflow, %d node(s) in between, elevation(pass in) %s "
+                       "elevation(pass out)" % (uname, method.split("_")[-1], "is the" if p == a else "below the",
+                                                max(chain_len - 1, 0), rel), not bad, where=fn.ploc,
+                       function=fn.bn, construct="reroute(%s)" % method.split("_")[-1],
+                       detail="; ".join(bad), extra={"unit": uname})
+    return n
 
 
 def check_pflood(w, orig, fin, adj, exc):
